@@ -23,6 +23,17 @@ def spin_check(S, trace):
             run.clear()
 
 
+def exact_fit(S, c, slack=0):
+    """an id-less request (nothing to answer) whose payload ends `slack` bytes in front of the end of the connection's read buffer
+    (a payload of the maximum size always does: the reader moves it to the start of the buffer)"""
+    room = S.max_msg - slack
+    m = {"method": "info", "params": {"p": ""}}
+    m["params"]["p"] = "p" * (room - len(json.dumps(m)))
+    pl = json.dumps(m).encode()
+    assert len(pl) == room
+    return S.frame_for(c, pl)
+
+
 @scenario("outbound")
 def outbound(case, res):
     prm = case["params"]
@@ -77,6 +88,12 @@ def outbound(case, res):
                 sub.may_close = True
                 break
             steps = {"one": [1] * 6, "two": [2, 2, 2], "frame-1": [max(1, sizes[0] + 60)], "small": [3, 1, 5], "inf": []}[cont]
+            if t != "ws" and rng.random() < 0.5:
+                # while output is parked: input that fills the read buffer to its last byte (and up to 3 bytes short of it)
+                S.settle()
+                S.send_bytes(sub, exact_fit(S, sub, rng.choice([0, 0, 1, 2, 3])))
+                S.settle()
+                S.sig("read-buffer-filled-to-the-end-while-output-is-parked", t)
             for r in steps:
                 S.sim.wpol(sub.fd, budget=r)
                 if incoming and rng.random() < 0.3:
